@@ -54,7 +54,8 @@ def main():
                     shutil.copy(os.path.join(ddir, f), os.path.join(wt, d, f))
                     demos.append(d)
             pk = " ".join("./" + d for d in sorted(set(demos)))
-            democmd = "go test -vet=off -count=1 %s -run '^(%s)$' %s" % (("-tags " + ",".join(tags)) if tags else "", "|".join(names), pk)
+            runarg = "" if os.environ.get("EVALMUT_NORUN") else "-run '^(%s)$'" % "|".join(names)   # some demos need an empty -run
+            democmd = "go test -vet=off -count=1 %s %s %s" % (("-tags " + ",".join(tags)) if tags else "", runarg, pk)
         rc, out = sh(democmd, cwd=wt)
         res["confirm"]["demo_fails_with_patch"] = rc != 0
         sh("git apply -R %s" % patch, cwd=wt)
